@@ -229,9 +229,17 @@ pub fn open_flow(
                                 sent.denom == flow_asset_denom && sent.amount == flow_asset.amount
                             })
                             .ok_or(ContractError::FlowAssetNotSent)?;
+                    } else {
+                        // the flow_fee was already subtracted from the flow_asset amount, so the
+                        // funds sent must cover both the flow_asset amount and the flow_fee
+                        info.funds
+                            .iter()
+                            .find(|sent| {
+                                sent.denom == flow_asset_denom
+                                    && sent.amount == flow_asset.amount + flow_fee.amount
+                            })
+                            .ok_or(ContractError::FlowAssetNotSent)?;
                     }
-                    // no need to verify the case where flow_fee_denom == flow_asset_denom since
-                    // it is done before when we check the fee_flow denom is the same as the flow_asset_denom
                 }
             }
         }
